@@ -423,3 +423,138 @@ func RDefault(c *core.Ctx) {
 		_ = syn
 	}
 }
+
+// ---------------------------------------------------------------------------
+// R-BYTERUNE / R-RUNECUT: prefixes are collected as UTF-8 bytes.
+//
+// The prefix analyses build their strings in byte buffers.  Two operations
+// must respect rune boundaries:
+//  * taking "the first character" of such a string: `rune(s[0])` is the first
+//    BYTE; for a non-ASCII first character it is a different character
+//    (0xC3 = 'Ã' for 'é'), which is then tested against sets and published as
+//    the literal to search for;
+//  * cutting a string at the length of a byte-wise common prefix: two branches
+//    that share the first byte of a multi-byte character give a cut inside the
+//    character.  The cut has to be moved back to a rune boundary.
+// ---------------------------------------------------------------------------
+
+func RByteRune(c *core.Ctx) {
+	c.Rule("R-BYTERUNE", "in package syntax no byte obtained by indexing a string (s[i]) is converted to a rune and used as a character, unless a dominating test shows it to be ASCII (< utf8.RuneSelf / < 0x80): the first character of a UTF-8 string is obtained by decoding", 1)
+	p := c.P
+	n := 0
+	for _, fn := range p.ModuleFuncs() {
+		if core.FnPkgPath(fn) != core.PkgSyntax {
+			continue
+		}
+		name := core.SSAName(fn)
+		cnt := 0
+		for _, b := range fn.Blocks {
+			for _, ins := range b.Instrs {
+				cv, ok := ins.(*ssa.Convert)
+				if !ok {
+					continue
+				}
+				bt, ok := cv.Type().Underlying().(*types.Basic)
+				if !ok || bt.Kind() != types.Int32 { // rune
+					continue
+				}
+				var lk ssa.Value
+				var strX ssa.Value
+				switch y := cv.X.(type) {
+				case *ssa.Lookup:
+					lk, strX = y, y.X
+				case *ssa.Index:
+					lk, strX = y, y.X
+				default:
+					continue
+				}
+				if st, ok := strX.Type().Underlying().(*types.Basic); !ok || st.Info()&types.IsString == 0 {
+					continue
+				}
+				cnt++
+				n++
+				c.Visit(name)
+				ascii := false
+				for _, f := range core.FactsAtBlock(b) {
+					x, y, op, ok := core.CmpNorm(f)
+					if !ok {
+						continue
+					}
+					if k, isC := core.IntConst(y); isC && (op == token.LSS && k <= 128 || op == token.LEQ && k <= 127) {
+						if x == lk || core.SameValue(x, lk) {
+							ascii = true
+						}
+						if cx, ok := x.(*ssa.Convert); ok && core.SameValue(cx.X, lk) {
+							ascii = true
+						}
+					}
+				}
+				c.Check(ascii, fmt.Sprintf("%s / byte-to-rune conversion #%d is of an ASCII byte", name, cnt), cv.Pos(),
+					"rune(%s[…]) takes one BYTE of a UTF-8 string as a character: for a non-ASCII first character this is a different character (0xC3 'Ã' for 'é'), which is then tested against sets / published as the literal to search for", strX.Name())
+			}
+		}
+	}
+	if n == 0 {
+		c.Note("R-BYTERUNE: no string-byte to rune conversion in package syntax")
+		c.OK("syntax / no string byte is used as a character", token.NoPos, "no rune(s[i]) on a string in package syntax")
+	}
+}
+
+func RRuneCut(c *core.Ctx) {
+	c.Rule("R-RUNECUT", "every function of package syntax that shortens a byte buffer to a length computed by the byte-wise commonPrefixLen moves that length back to a rune boundary (utf8.RuneStart / a decode of the last rune) before cutting", 1)
+	p := c.P
+	cpl := p.SSAFunc(p.LookupFunc("syntax", "commonPrefixLen"))
+	if cpl == nil {
+		c.Anchor("syntax.commonPrefixLen")
+		return
+	}
+	n := 0
+	for _, fn := range p.ModuleFuncs() {
+		if core.FnPkgPath(fn) != core.PkgSyntax || fn == cpl {
+			continue
+		}
+		uses, aligns := false, false
+		var pos token.Pos
+		for _, b := range fn.Blocks {
+			for _, ins := range b.Instrs {
+				call, ok := ins.(*ssa.Call)
+				if !ok {
+					continue
+				}
+				cal := call.Call.StaticCallee()
+				if cal == nil {
+					continue
+				}
+				if cal == cpl {
+					uses, pos = true, call.Pos()
+				}
+				if cal.Pkg != nil && cal.Pkg.Pkg.Path() == "unicode/utf8" && (cal.Name() == "RuneStart" || strings.HasPrefix(cal.Name(), "DecodeLastRune") || cal.Name() == "Valid" || cal.Name() == "ValidString") {
+					aligns = true
+				}
+				if core.InModule(cal) && cal != cpl {
+					// a helper of the package that aligns
+					for _, b2 := range cal.Blocks {
+						for _, i2 := range b2.Instrs {
+							if c2, ok := i2.(*ssa.Call); ok {
+								if k := c2.Call.StaticCallee(); k != nil && k.Pkg != nil && k.Pkg.Pkg.Path() == "unicode/utf8" && k.Name() == "RuneStart" {
+									aligns = true
+								}
+							}
+						}
+					}
+				}
+			}
+		}
+		if !uses {
+			continue
+		}
+		n++
+		name := core.SSAName(fn)
+		c.Visit(name)
+		c.Check(aligns, name+" / the byte-wise common prefix length is aligned to a rune boundary", pos,
+			"branches whose first characters share a leading UTF-8 byte (é / è: 0xC3) give a common prefix that ends inside a character; the cut string is invalid UTF-8 and its first byte is later taken for a character")
+	}
+	if n == 0 {
+		c.Anchor("callers of commonPrefixLen")
+	}
+}
